@@ -40,12 +40,15 @@ def build(cfgs, quiet=True):
     hd, tgt = _harness_dir()
     env = dict(os.environ)
     env['CARGO_NET_OFFLINE'] = 'true'
-    env['RUSTFLAGS'] = '--cfg rustpython_parser_verif'
+    # (development only: VERIF_EXTRA_RUSTFLAGS='-C instrument-coverage' VERIF_CARGO_TOOLCHAIN=+nightly measure which lines of the
+    # repository a tier executes - selftest/coverage.sh; the registered commands never set them)
+    env['RUSTFLAGS'] = ('--cfg rustpython_parser_verif ' + os.environ.get('VERIF_EXTRA_RUSTFLAGS', '')).strip()
     env.pop('RUSTC_WRAPPER', None)
     procs = []
     t0 = time.time()
+    tc = [os.environ['VERIF_CARGO_TOOLCHAIN']] if os.environ.get('VERIF_CARGO_TOOLCHAIN') else []
     for c in cfgs:
-        cmd = ['cargo', 'build', '--release', '--offline', '--features', 'cfg' + c, '--target-dir', os.path.join(tgt, c)]
+        cmd = ['cargo'] + tc + ['build', '--release', '--offline', '--features', 'cfg' + c, '--target-dir', os.path.join(tgt, c)]
         procs.append((c, subprocess.Popen(cmd, cwd=hd, env=env, stdout=subprocess.PIPE, stderr=subprocess.STDOUT)))
     ok = True
     for c, p in procs:
